@@ -475,6 +475,12 @@ func ExecE2E(c E2ECase, bound time.Duration) (*E2EOutcome, error) {
 	}
 	defer closeAll()
 
+	type keptErr struct {
+		err  error
+		exp  ExpFrame
+		what string
+	}
+	var kept []keptErr
 	var frames [][]byte
 	prevExp, prevInv := 0, 0
 	dead := false
@@ -526,6 +532,8 @@ func ExecE2E(c E2ECase, bound time.Duration) (*E2EOutcome, error) {
 				if d := CheckClientError(rerr, e); d != "" {
 					return fmt.Errorf("%sreply %d: %s", pre, k, d)
 				}
+				// an error value handed to the caller must stay what it was, whatever happens later on this or any other connection
+				kept = append(kept, keptErr{rerr, e, fmt.Sprintf("%sreply %d", pre, k)})
 				return nil
 			}
 			if rerr != nil {
@@ -643,6 +651,14 @@ func ExecE2E(c E2ECase, bound time.Duration) (*E2EOutcome, error) {
 			verr = fmt.Errorf("sentinel GetInfo returned vendor %q, want %q", v, env.cfg.Ident[0])
 		}
 		cancel()
+	}
+	if verr == nil {
+		for _, k := range kept {
+			if d := CheckClientError(k.err, k.exp); d != "" {
+				verr = fmt.Errorf("%s: the error value returned earlier changed after later calls: %s", k.what, d)
+				break
+			}
+		}
 	}
 	closeAll()
 	if proxy != nil {
